@@ -70,6 +70,7 @@ type c07Config struct {
 	shape     string
 	blocks    [][]c07Spec // specs per import declaration
 	parens    []bool
+	blockCmt  []string // per import declaration: a comment on the line of its opening parenthesis
 	cgoFirst  bool
 	refs      []c07Ref
 	overrides map[string]string
@@ -208,6 +209,13 @@ func c07Generate(r *rand.Rand) *c07Config {
 			cfg.blocks, cfg.parens = [][]c07Spec{specs}, []bool{len(specs) > 1 || r.Intn(2) == 0}
 		}
 	}
+	// a comment on the line of the opening parenthesis of some blocks
+	cfg.blockCmt = make([]string, len(cfg.blocks))
+	for bi := range cfg.blocks {
+		if cfg.parens[bi] && (cfg.shape == "commented" || r.Intn(5) == 0) && !cfg.cgoFirst && cfg.shape != "cgo-mixed" {
+			cfg.blockCmt[bi] = fmt.Sprintf("// blk%d", bi)
+		}
+	}
 	// references
 	n := 0
 	imported := map[string]c07Spec{}
@@ -296,7 +304,11 @@ func (cfg *c07Config) source() string {
 			return l
 		}
 		if cfg.parens[bi] {
-			sb.WriteString("import (\n")
+			if bi < len(cfg.blockCmt) && cfg.blockCmt[bi] != "" {
+				sb.WriteString("import ( " + cfg.blockCmt[bi] + "\n")
+			} else {
+				sb.WriteString("import (\n")
+			}
 			for _, s := range b {
 				if s.lead != "" {
 					sb.WriteString("\t" + s.lead + "\n")
@@ -730,6 +742,26 @@ func c07One(c *fw.Ctx, id string) {
 			viol("imports-reordered", "imports-reordered", fmt.Sprintf("no import had to be added, yet the order changed: input %v, output %v", wantOrder, outOrder))
 		}
 		c.Count("no_addition_configs", 1)
+		// decorations: the comment on the opening line of every block that keeps at least one spec is
+		// still there, once (comments between specs belong to whichever neighbour dst attached them
+		// to and may leave with it)
+		outSection := importSection(out)
+		for bi, b := range cfg.blocks {
+			kept := 0
+			for _, sp := range b {
+				if !want[sp.path] || sp.path == "C" {
+					continue
+				}
+				kept++
+			}
+			if kept > 0 && bi < len(cfg.blockCmt) && cfg.blockCmt[bi] != "" {
+				c.Count("block_comments_checked", 1)
+				if strings.Count(out, cfg.blockCmt[bi]) != 1 {
+					viol("import-decorations-lost", fmt.Sprintf("import-decorations-lost:block:kept=%d", minInt(kept, 2)), fmt.Sprintf("no import had to be added and block %d keeps %d spec(s), yet its comment %q occurs %d times in the output", bi, kept, cfg.blockCmt[bi], strings.Count(out, cfg.blockCmt[bi])))
+				}
+			}
+		}
+		_ = outSection
 		// nothing at all to change: the section must be byte-identical
 		same := len(cfg.overrides) == 0
 		for _, p := range srcOrder {
